@@ -399,6 +399,30 @@ def coherent_theory_program(rnd):
     return prog
 
 
+def cyclic_theory_program(rnd):
+    """Malformed but syntactically valid: theory terms that refer to themselves / each other through the function symbol or an argument
+    (with 0, 1 or several arguments), used by an atom. Writers must report an error, never recurse without bound."""
+    n = rnd.choice([1, 1, 2, 3])
+    ids = list(range(5, 5 + n))
+    prog = [(1, False), (2,), (13, 1, 7), (14, 2, b'f')]
+    for k, t in enumerate(ids):
+        nxt = ids[(k + 1) % n]
+        nargs = rnd.choice([0, 0, 1, 2])
+        via_fun = rnd.random() < 0.6 or nargs == 0
+        base = nxt if via_fun else rnd.choice([2, -1, -2, -3])
+        args = [(nxt if (not via_fun and j == 0) else rnd.choice([1, 2, nxt])) for j in range(nargs)]
+        prog.append((15, t, base, args))
+    how = rnd.random()
+    if how < 0.4:
+        prog.append((17, 0, ids[0], []))                         # as the atom's name term
+    elif how < 0.8:
+        prog += [(16, 1, [ids[0]], []), (17, 0, 2, [1])]         # inside an element
+    else:
+        prog.append((18, 0, 2, [], 2, ids[0]))                   # as guard rhs
+    prog.append((3,))
+    return prog
+
+
 BIG = [b'2147483647', b'2147483648', b'4294967295', b'4294967296', b'9223372036854775807', b'9223372036854775808',
        b'18446744073709551615', b'18446744073709551616', b'18446744073709551617', b'-2147483648', b'-2147483649',
        b'-9223372036854775808', b'99999999999999999999999999999999999999', b'0', b'-0', b'+1', b'00000000001']
@@ -486,7 +510,11 @@ def gen(seed, tier):
                 modes = modes[1:]          # converters / text writer index tables by atom and id: keep those small
                 C.BIG_ATOMS = False
             try:
-                base = aspif_text(coherent_theory_program(rnd) if rnd.random() < (0.5 if pipeline else 0.3) else C.r_program(rnd), rnd)
+                r2 = rnd.random()
+                if r2 < 0.08:
+                    base = aspif_text(cyclic_theory_program(rnd), rnd)
+                else:
+                    base = aspif_text(coherent_theory_program(rnd) if r2 < (0.55 if pipeline else 0.35) else C.r_program(rnd), rnd)
             finally:
                 C.BIG_ATOMS = True
         elif fam == 'smodels':
